@@ -25,6 +25,7 @@ type tNetCfg struct {
 	biasFirst              bool // bias nodes are listed before the input nodes (sensor order is by id, not by role)
 	concreteW              bool // distinct concrete weights (keeps recurrent multi-step terms linear in the inputs)
 	neuronsFirst           bool // the network's node list names the neurons before the sensors (not grouped sensors-first)
+	hidAnyOrder            bool // feed-forward links between two hidden nodes may also run from the later-listed (higher id) to the earlier one
 }
 
 func symW(tag string) float64 {
@@ -88,17 +89,7 @@ func tBuild(c tNetCfg) *tNet {
 	firstHid := t.nSensors + c.nOut
 	add := func(f, to int) {
 		if vChoice("edge", 2) == 1 {
-			var w float64
-			if c.concreteW {
-				w = []float64{0.5, -0.75, 1.25, -0.375, 0.625, -1.5, 0.875, 0.25, -0.125, 1.75, -0.9375, 0.4375}[len(t.w)%12]
-			} else {
-				w = symW("w")
-			}
-			l := t.all[to].ConnectFrom(t.all[f], w)
-			_ = l
-			t.from = append(t.from, f)
-			t.to = append(t.to, to)
-			t.w = append(t.w, w)
+			t.link(c, f, to)
 		}
 	}
 	// sensors -> hidden, outputs
@@ -110,6 +101,17 @@ func tBuild(c tNetCfg) *tNet {
 	// hidden -> later hidden, hidden -> outputs
 	for h := firstHid; h < len(t.all); h++ {
 		for h2 := h + 1; h2 < len(t.all); h2++ {
+			if c.hidAnyOrder && !c.recurrent {
+				// either direction, never both (the topological order need not be the id order: add-node gives the
+				// new, higher-numbered node to an older hidden node as a source)
+				switch vChoice("hidden link", 3) {
+				case 1:
+					t.link(c, h, h2)
+				case 2:
+					t.link(c, h2, h)
+				}
+				continue
+			}
 			add(h, h2)
 		}
 		for o := t.nSensors; o < firstHid; o++ {
@@ -134,6 +136,47 @@ func tBuild(c tNetCfg) *tNet {
 	t.neuronsFirst = c.neuronsFirst
 	t.net = NewNetwork(inputs, t.outs, t.listed(), 1)
 	return t
+}
+
+func (t *tNet) link(c tNetCfg, f, to int) {
+	var w float64
+	if c.concreteW {
+		w = []float64{0.5, -0.75, 1.25, -0.375, 0.625, -1.5, 0.875, 0.25, -0.125, 1.75, -0.9375, 0.4375}[len(t.w)%12]
+	} else {
+		w = symW("w")
+	}
+	t.all[to].ConnectFrom(t.all[f], w)
+	t.from = append(t.from, f)
+	t.to = append(t.to, to)
+	t.w = append(t.w, w)
+}
+
+// acyclic: no directed cycle among the links (Kahn)
+func (t *tNet) acyclic() bool {
+	indeg := make([]int, len(t.all))
+	for k := range t.to {
+		indeg[t.to[k]]++
+	}
+	removed := make([]bool, len(t.all))
+	for n := 0; n < len(t.all); n++ {
+		found := -1
+		for j := range indeg {
+			if !removed[j] && indeg[j] == 0 {
+				found = j
+				break
+			}
+		}
+		if found < 0 {
+			return false
+		}
+		removed[found] = true
+		for k := range t.from {
+			if t.from[k] == found {
+				indeg[t.to[k]]--
+			}
+		}
+	}
+	return true
 }
 
 // reachableFromSensor: every neuron has a directed path from some sensor.
